@@ -151,6 +151,7 @@ class CellWrapper:
         # Calculate actual and available width
         actual_width = 0
         last_adapted_col = 0
+        remaining_columns = 0
 
         # "Long" columns, i.e. columns that need to be wrapped, are added to
         # the actual width
@@ -160,31 +161,37 @@ class CellWrapper:
 
             actual_width += length
             last_adapted_col = col
+            remaining_columns += 1
 
         # Fit columns into available width
         for col, length in enumerate(long_column_lengths):
             if length is None:
                 continue
 
-            # Keep ratios of column lengths and distribute them among the
-            # available width
-            self._column_lengths[col] = int(
-                round((length / actual_width) * available_width)
-            )
+            remaining_columns -= 1
 
             if col == last_adapted_col:
-                # Fix rounding errors
-                self._column_lengths[col] += self._max_total_width - sum(
-                    self._column_lengths
-                )
+                # The last column gets what is left (this also fixes
+                # rounding errors)
+                column_length = available_width
+            else:
+                # Keep ratios of column lengths and distribute them among the
+                # available width
+                column_length = int(round((length / actual_width) * available_width))
+
+                # Leave at least one character for each of the other columns
+                column_length = min(column_length, available_width - remaining_columns)
+
+            self._column_lengths[col] = max(column_length, 1)
 
             self._wrap_column(col, self._column_lengths[col], formatter)
 
             # Recalculate the column length based on the actual wrapped length
             self._refresh_column_length(col)
 
-            # Recalculate the actual width based on the changed length.
-            actual_width = actual_width - length + self._column_lengths[col]
+            # Distribute the rest among the remaining columns
+            actual_width -= length
+            available_width -= self._column_lengths[col]
 
         self._total_width = sum(self._column_lengths)
 
